@@ -197,6 +197,13 @@ def build(rng: random.Random, size: str = "quick"):
             if i == 0:
                 b = N.force_valid(cc, b) or b
             add({"fn": "iban", "text": R.make_iban(cc, b), "kw": {"validate_bban": True}}, f"nat:{cc}")
+        # the national check asked at BBAN level (a short path: cheap to explore under every preemption point):
+        # two different valid ones and two invalid ones per country
+        for i in range(4):
+            b = gen.random_bban(spec, rng)
+            if i < 2:
+                b = N.force_valid(cc, b) or b
+            add({"fn": "bban", "country": cc, "value": b}, f"natb:{cc}")
     # the same digit string as body of every national-algorithm country (equal component concatenations)
     for k in range(2 if size == "quick" else 8):
         D = "".join(rng.choice(R.DIGITS) for _ in range(40))
